@@ -5,3 +5,4 @@ import PylxProofs.C17
 import PylxProofs.C19
 import PylxProofs.C04
 import PylxProofs.C14
+import PylxProofs.ParseSpec
